@@ -316,8 +316,13 @@ static LD tol_ustar(const Ref &R, LD rel) {
 }
 static Tol tol_star(const Ref &R, bool left) {
   Tol t;
-  t.p = 1e-7L * R.ps;
-  t.r = 1e-7L * (left ? R.rsL : R.rsR);
+  // conditioning of the problem itself: the inputs are doubles, and the round-off of forming uR - uL and the two
+  // f_K (64 eps of their magnitudes, the same noise term as in the residual clause) moves the root of the pressure
+  // equation by noise / f'(p*).  Close to the vacuum limit f'(p*) p* -> 0 and this dominates the solver's 1e-8.
+  const LD kap = 1 + 2 * R.g / (R.g - 1);
+  const LD cond = 64 * EPS * (fabsl(R.uL) + fabsl(R.uR) + kap * (R.aL + R.aR)) / (R.ps * R.fprime);
+  t.p = (1e-7L + cond) * R.ps;
+  t.r = (1e-7L + cond) * (left ? R.rsL : R.rsR);
   t.u = tol_ustar(R, 1e-7L);
   return t;
 }
@@ -715,13 +720,13 @@ static Prob gen(vh::Rng &r) {
   else {
     switch (r.below(6)) {
     case 0: du = 0.; break;
-    case 1: du = crit * (1. - r.loguniform(1e-6, 0.9)); break;          // strong double rarefaction up to vacuum generation
+    case 1: du = crit * (1. - r.loguniform(r.chance(0.5) ? 1e-6 : 1e-13, 0.9)); break;          // strong double rarefaction up to vacuum generation
     case 2: du = -amax * r.loguniform(1e-2, 100.); break;                // colliding
     case 3: du = r.uniform(-1., 1.) * 1e-3 * std::min(aL, aR); break;    // weak waves
     case 4: du = r.uniform(-2., 2.) * amax; break;
     default: du = (r.chance(0.5) ? 1. : -1.) * amax * r.loguniform(1e-3, 10.); break;
     }
-    if (du >= crit * (1. - 1e-6)) du = crit * r.uniform(0., 0.9);
+    if (du >= crit * (1. - 1e-13)) du = crit * r.uniform(0., 0.9);
   }
   q.uL = drift - 0.5 * du;
   q.uR = drift + 0.5 * du;
